@@ -26,7 +26,9 @@ class Torque(ResourceManager):
         if not nodefile:
             raise RuntimeError('$PBS_NODEFILE not set')
 
-        nodes = self._parse_nodefile(nodefile)
+        # a configured node size supersedes the number of entries per node
+        # (some node files have one entry per node, not one per slot)
+        nodes = self._parse_nodefile(nodefile, cpn=rm_info.cores_per_node)
 
         if not rm_info.cores_per_node:
             rm_info.cores_per_node = self._get_cores_per_node(nodes)
